@@ -241,3 +241,8 @@ def t_update_all_order(sess):
         by1[n][k] is by2[n][k] for n in by1 for k in ("params", "deformation_gradient", "get_velocity_gradient", "pathline"))
     ok = ok and all(kw["deformation_gradient"] is Fin and kw["params"] is params for _, kw in c1 + c2)
     sess.prove("update_all: each mineral receives identical inputs whatever the order of the mineral list", p.pc, z3.BoolVal(ok))
+
+
+def default_cex(name):
+    """Generic public-API replay for verdicts that carry no more specific counterexample."""
+    return {"replay": "vf.props.replays:c08_multiphase", "case": {}, "cls": {"kind": "phase does not evolve with its own volume factor"}}
